@@ -2,7 +2,9 @@ package core
 
 import (
 	"os"
+	"sort"
 	"testing/synctest"
+	"time"
 
 	"verif/sim/tape"
 )
@@ -13,6 +15,7 @@ type FWaiter struct {
 	Lock     bool // parked because a TryLock failed
 	Runnable bool
 	Seq      uint64
+	G        uint64 // goroutine identity (not an ordering)
 	Ref      interface{}
 }
 
@@ -20,6 +23,8 @@ type FWaiter struct {
 // build (build tag simf, see props/f_sched.go); NewFScheduler is nil otherwise.
 type FScheduler interface {
 	Install()
+	SetSelectSeed(seed uint64)
+	SetDriverWait(w func() bool)
 	Uninstall()
 	Waiters() []FWaiter
 	Resume(w FWaiter)
@@ -40,23 +45,146 @@ type FDriver struct {
 	S FScheduler
 	T *tape.Tape
 	// Preempt: 1 in Preempt steps switches to a uniformly chosen runnable goroutine instead of
-	// continuing with the most recently parked one (which approximates "keep running the same thread").
+	// continuing with the goroutine resumed last ("keep running the same thread").
 	Preempt int
+	lastG   uint64
+
+	// Stalled goroutine faults. A site is a stall site of this run when hash(HoldSeed, site) % HoldMod
+	// == 0 (HoldMod 0: none); about every second arrival at a stall site is held there (at most
+	// MaxHolds per run): the goroutine is not resumed until HoldFor of simulated time has passed, or,
+	// with HoldFor 0, until nothing else can run. ReleaseAll ends all holds (fault free epilogue).
+	HoldMod  int
+	HoldSeed uint64
+	HoldFor  time.Duration
+	MaxHolds int
+	Holds    int // how many goroutines were held (fault count)
+	held     map[interface{}]time.Time
+	seen     map[interface{}]bool
+	arrivals map[string]uint64
+	released bool
+	// Trace, if set, is told every resumed site (debugging aid, VERIF_FTRACE=1).
+	Trace func(site string, runnable int)
+}
+
+// NewFDriver creates the scheduler of a run and draws its policy from the tape: preemption rate, the
+// poll order seed of rewritten select statements, and the stall plan.
+func NewFDriver(t *tape.Tape) *FDriver {
+	sch := NewFScheduler()
+	d := &FDriver{S: sch, T: t, Preempt: []int{4, 8, 20}[t.Draw(3)], MaxHolds: 6}
+	sch.SetSelectSeed(uint64(t.Draw(1 << 20)))
+	d.HoldMod = []int{0, 30, 100, 300}[t.Draw(4)]
+	d.HoldSeed = uint64(t.Draw(1 << 20))
+	d.HoldFor = []time.Duration{0, 300 * time.Millisecond, 1500 * time.Millisecond, 6 * time.Second, 31 * time.Second}[t.Draw(5)]
+	// a driver call that meets a lock held by a parked goroutine lets the others run, as a thread
+	// waiting for the mutex would; stalled goroutines are released when nothing else can run
+	sch.SetDriverWait(func() bool {
+		if d.Step() {
+			return true
+		}
+		if len(d.held) > 0 {
+			d.held = map[interface{}]time.Time{}
+			return d.Step()
+		}
+		return false
+	})
+	return d
 }
 
 // runnable returns the parked goroutines that can make progress.
-func (d *FDriver) runnable() []FWaiter {
+func (d *FDriver) runnable() []FWaiter { return d.parked(true) }
+
+// Parked returns all parked goroutines in canonical order.
+func (d *FDriver) Parked() []FWaiter { return d.parked(false) }
+
+// ReleaseAll ends every hold and plans no more (the fault free epilogue).
+func (d *FDriver) ReleaseAll() {
+	d.released = true
+	d.held = nil
+}
+
+// HeldCount is the number of goroutines currently held.
+func (d *FDriver) HeldCount() int { return len(d.held) }
+
+func (d *FDriver) parked(runnableOnly bool) []FWaiter {
 	var out []FWaiter
 	for _, w := range d.S.Waiters() {
-		if w.Runnable {
+		if w.Runnable || !runnableOnly {
 			out = append(out, w)
 		}
 	}
+	if runnableOnly && d.HoldMod > 0 && !d.released {
+		out = d.applyHolds(out)
+	}
+	// canonical order: by site, not by the order in which goroutines woken in the same instant happened
+	// to reach their yields (that order is the Go runtime's)
+	sort.SliceStable(out, func(i, j int) bool {
+		if out[i].Site != out[j].Site {
+			return out[i].Site < out[j].Site
+		}
+		return out[i].Seq < out[j].Seq
+	})
 	return out
 }
 
+// applyHolds classifies newly parked goroutines (in canonical order) and removes the held ones.
+func (d *FDriver) applyHolds(rs []FWaiter) []FWaiter {
+	sort.SliceStable(rs, func(i, j int) bool {
+		if rs[i].Site != rs[j].Site {
+			return rs[i].Site < rs[j].Site
+		}
+		return rs[i].Seq < rs[j].Seq
+	})
+	if d.seen == nil {
+		d.seen, d.held, d.arrivals = map[interface{}]bool{}, map[interface{}]time.Time{}, map[string]uint64{}
+	}
+	now := time.Now() // the bubble's clock
+	for _, w := range rs {
+		if d.seen[w.Ref] || w.Lock {
+			continue
+		}
+		d.seen[w.Ref] = true
+		n := d.arrivals[w.Site]
+		d.arrivals[w.Site] = n + 1
+		h := d.HoldSeed ^ 0x51ed270b3a4c9d17
+		for i := 0; i < len(w.Site); i++ {
+			h = (h ^ uint64(w.Site[i])) * 1099511628211
+		}
+		h ^= h >> 29
+		if h%uint64(d.HoldMod) != 0 || d.Holds >= d.MaxHolds {
+			continue
+		}
+		h = (h ^ n ^ 0x2545f4914f6cdd1d) * 1099511628211
+		h ^= h >> 31
+		if h&1 == 0 {
+			d.held[w.Ref] = now.Add(d.HoldFor)
+			d.Holds++
+		}
+	}
+	var free, heldNow []FWaiter
+	for _, w := range rs {
+		until, isHeld := d.held[w.Ref]
+		switch {
+		case !isHeld:
+			free = append(free, w)
+		case d.HoldFor > 0 && !now.Before(until):
+			delete(d.held, w.Ref)
+			free = append(free, w)
+		default:
+			heldNow = append(heldNow, w)
+		}
+	}
+	if len(free) == 0 && d.HoldFor == 0 && len(heldNow) > 0 {
+		// nothing else can run: a hold without a duration ends here
+		for _, w := range heldNow {
+			delete(d.held, w.Ref)
+		}
+		return heldNow
+	}
+	return free
+}
+
 // Idle: every instrumented goroutine is blocked on a real channel, timer or lock held by a goroutine
-// that is itself blocked — nothing can be resumed.
+// that is itself blocked, or is held by a stall fault — nothing can be resumed now.
 func (d *FDriver) Idle() bool {
 	synctest.Wait()
 	return len(d.runnable()) == 0
@@ -74,15 +202,26 @@ func (d *FDriver) Step() bool {
 		if d.Preempt > 0 && d.T.Draw(d.Preempt) == d.Preempt-1 {
 			i = d.T.Draw(len(rs))
 		} else {
-			// most recently parked
+			// keep running the goroutine resumed last, if it can run; else the tape picks the next one
+			i = -1
 			for k := range rs {
-				if rs[k].Seq > rs[i].Seq {
+				if rs[k].G == d.lastG {
 					i = k
 				}
 			}
+			if i < 0 {
+				i = d.T.Draw(len(rs))
+			}
 		}
 	}
+	if d.Trace != nil {
+		d.Trace(rs[i].Site, len(rs))
+	}
+	d.lastG = rs[i].G
+	delete(d.seen, rs[i].Ref)
 	d.S.Resume(rs[i])
+	// the driver (and its tape) stands still while the resumed goroutine runs to its next yield
+	synctest.Wait()
 	return true
 }
 
